@@ -17,6 +17,7 @@
     * `final_memory_sequential`: final memory = memory of the unpipelined machine (after the cache write-back).
 -/
 import MajoranaVerif.Proofs.Mvp4Run
+import MajoranaVerif.Proofs.Mvp5Run
 open GoInt Model Model.Mvp4 Model.Seq Proofs.Mvp4
 
 namespace Props.C10
@@ -88,5 +89,81 @@ example : (Model.Mvp4.run exApp exCtx 8000).halt = some .ret ∧
     GoMap.get1 (Model.Mvp4.run exApp exCtx 8000).final.ctx.Registers 6 = 77#32 ∧
     GoMap.get1 (Model.Mvp4.run exApp exCtx 8000).final.ctx.Registers 8 = 5#32 ∧
     (Model.Mvp4.run exApp exCtx 8000).final.ctx.Memory.take 4 = [5#8, 0#8, 0#8, 0#8] := by decide
+
+end Props.C10
+
+/-! ## MVP-5 (work package MVP5)
+
+  C10 for MVP-5, proved on the cycle-accurate model `Model.Mvp5` (tied to the Go code cycle-exactly).  Loads and
+  stores take the same path as in MVP-4 (`Model.Mvp5` runs `Model.Mvp4`'s execute-unit code for every instruction
+  that is not an unconditional jump — `Proofs.Mvp5.euMemDone_nonjump`, `euIssue_nonjump` — and MVP-4's write unit);
+  jumps neither load nor store (`Proofs.Mvp5.jump_no_load`, `run_jump`).  The MVP-5 counterparts of the theorems
+  above. -/
+
+namespace Props.C10
+
+/-- (MVP-5) the store→load interlock is sound -/
+theorem mvp5_interlock_excludes_queued_store (s : Model.Mvp5.State) (a : Arch) (hb : Back s.base a) (line : Int)
+    (h : pendingWriteMemoryIntention s.base.pwmi line = false) :
+    ∀ ec ∈ s.base.writeBus.inside, isStore ec = true → ∀ p ∈ ec.execution.MemoryChanges, lineOf p.1 ≠ line :=
+  interlock_excludes_queued_store s.base a hb line h
+
+/-- (MVP-5) a queued store never lies in a resident line of L1D -/
+theorem mvp5_queued_stores_not_resident (s : Model.Mvp5.State) (a : Arch) (hb : Back s.base a) :
+    ∀ ec ∈ s.base.writeBus.inside, isStore ec = true → ∀ p ∈ ec.execution.MemoryChanges,
+      ∀ y ∈ s.base.mmu.l1d.lines, y.covers p.1.toInt = false :=
+  queued_stores_not_resident s.base a hb
+
+/-- **a load sees the latest older store** (MVP-5): completion of the memory read of the load `r` (not a jump: jumps
+do not load) is MVP-4's completion on the common part of the state, and executes `r` with the architectural bytes. -/
+theorem mvp5_load_sees_latest_older_store (app : App) (s s2 : Model.Mvp5.State) (a : Arch) (eu : ExecUnit) (r : Runner)
+    (out : EuOut) (hj : Proofs.Mvp5.isJump r = false)
+    (hb : Back s.base a) (hsid : eu.storeID = s.base.eu.storeID) (hp : PendOk s.base a r)
+    (hmem : eu.memory = s.base.eu.memory) (haddrs : eu.addrs = s.base.eu.addrs) (hpe : eu.pendingMemoryRead = false)
+    (hpc : r.pc = a.pc) (hi : instrAt app r.pc = .ok r.instr) (hnf : NoFwd app) (hok : stepOk app a = true)
+    (h : Model.Mvp5.euMemDone app s eu r = .ok (s2, out)) :
+    ∃ b : State, s2 = { s with base := b } ∧ euMemDone app s.base eu r = .ok (b, out) ∧
+    ∃ s1 : State, s1.eu.processing = eu.processing ∧ s1.fu = s.base.fu ∧ s1.decodeBus = s.base.decodeBus ∧
+      s1.executeBus = s.base.executeBus ∧ s1.wu = s.base.wu ∧ s1.mode = s.base.mode ∧ s1.cycles = s.base.cycles ∧
+      s1.eu.pendingMemoryRead = false ∧ s1.eu.memory = none ∧ s1.writeBus = s.base.writeBus ∧ Frame s1 b ∧
+      EuPost app s1 a b out := by
+  rw [Proofs.Mvp5.euMemDone_nonjump app s eu r hj] at h
+  obtain ⟨b, hb4, rfl⟩ := Proofs.Mvp5.map_lift_ok h
+  exact ⟨b, rfl, hb4, euMemDone_sim hb hsid hp hmem haddrs hpe hpc hi hnf hok hb4⟩
+
+/-- **stores commit in program order** (MVP-5) -/
+theorem mvp5_stores_commit_in_program_order (s s1 : Model.Mvp5.State) (a : Arch) (hb : Back s.base a)
+    (h : Model.Mvp5.writeCycle s = .ok s1) :
+    Back s1.base a ∧ (∀ ec ∈ s1.base.writeBus.inside, ec ∈ s.base.writeBus.inside) := by
+  obtain ⟨b, hw, rfl, hb1, _⟩ := Proofs.Mvp5.writeCycle5_rel (app := { instrs := [], labels := {} }) hb h
+  exact ⟨hb1, (writeCycle_back hb hw).2.2.2.2.2.2.2.2.2.1⟩
+
+/-- **final memory** (MVP-5): after the run `ctx.Memory` is the memory of the unpipelined machine. -/
+theorem mvp5_final_memory_sequential (app : App) (hnf : NoFwd app) (ctx : Model.Context) (hc : CtxOk ctx) (fuel : Nat)
+    (hok : seqOk app fuel ⟨ctx, 0#32⟩ = true) (hk : Halt)
+    (hh : (Model.Mvp5.run app ctx fuel).halt = some hk) (hnp : ∀ w, hk ≠ .panic w) (hne : hk ≠ .err) :
+    ∃ n, (runMvp1 app ⟨ctx, 0#32⟩ n).halt = some hk ∧
+      (Model.Mvp5.run app ctx fuel).final.base.ctx.Memory = (runMvp1 app ⟨ctx, 0#32⟩ n).final.ctx.Memory := by
+  obtain ⟨n, h1, h2⟩ := Proofs.Mvp5.mvp5_refines_mvp1 app hnf ctx hc fuel hok hk hh hnp
+  exact ⟨n, h1, (h2 hne).2⟩
+
+/-! non-vacuity: store → jump → load and store → store → load to one word, across a call and its return -/
+
+/-- `li x5,77 ; sw x5,0(x0) ; jal x1,F ; li x7,5 ; sw x7,0(x0) ; lw x8,0(x0) ; ret ; F: lw x6,0(x0) ; jalr x0,x1,0` -/
+def exApp5 : App :=
+  { instrs := [.li_ { rd := 5, imm := 77#32 }, .sw_ { rs := 5, rd := 0, offset := 0#32 }, .jal_ { rd := 1, label := "F" },
+               .li_ { rd := 7, imm := 5#32 }, .sw_ { rs := 7, rd := 0, offset := 0#32 },
+               .lw_ { rd := 8, rs := 0, offset := 0#32 }, .ret_ {},
+               .lw_ { rd := 6, rs := 0, offset := 0#32 }, .jalr_ { rd := 0, rs := 1, imm := 0#32 }],
+    labels := ⟨[("F", 28#32)]⟩ }
+
+example : NoFwd exApp5 := by unfold NoFwd exApp5; decide
+set_option maxRecDepth 100000 in
+example : seqOk exApp5 8000 ⟨exCtx, 0#32⟩ = true := by decide
+set_option maxRecDepth 100000 in
+example : (Model.Mvp5.run exApp5 exCtx 8000).halt = some .ret ∧
+    GoMap.get1 (Model.Mvp5.run exApp5 exCtx 8000).final.base.ctx.Registers 6 = 77#32 ∧
+    GoMap.get1 (Model.Mvp5.run exApp5 exCtx 8000).final.base.ctx.Registers 8 = 5#32 ∧
+    (Model.Mvp5.run exApp5 exCtx 8000).final.base.ctx.Memory.take 4 = [5#8, 0#8, 0#8, 0#8] := by decide
 
 end Props.C10
